@@ -445,6 +445,42 @@ func c15(c *core.Ctx) {
 		if n < 2 {
 			c.Fail("transports:registries", token.NoPos, "ANCHOR-MISSING: expected the in-process channel and the HTTP server to hold a registry, found %d", n)
 		}
+		// every transport instance has a registry of its own: what is stored into a registry field is a map made for
+		// that instance (in the constructor / on first use), not one made once for the package and handed to all
+		nOwn := 0
+		for _, pk := range []string{"httpgrpc", "inprocgrpc"} {
+			for _, fn := range p.LibFuncs(pk) {
+				core.Instrs(fn, func(in ssa.Instruction) {
+					st, ok := in.(*ssa.Store)
+					if !ok || core.IsNilConst(st.Val) {
+						return
+					}
+					if _, _, isF := core.FieldOf(st.Addr); !isF || core.NamedOf(st.Val.Type()) != reg.Obj().Name() {
+						return
+					}
+					nOwn++
+					bad := ""
+					for _, o := range originsThroughCallers(p, st.Val, 0) {
+						mk, isMk := core.Strip(o).(*ssa.MakeMap)
+						if !isMk {
+							bad = "comes from " + core.ValName(o)
+							continue
+						}
+						root := mk.Parent()
+						for root.Parent() != nil {
+							root = root.Parent()
+						}
+						if root.Name() == "init" || strings.HasPrefix(root.Name(), "init#") {
+							bad = "is made once, when the package is initialised"
+						}
+					}
+					c.Check(bad == "", core.FuncName(fn)+":registry-per-instance", st.Pos(), "the registry stored here is a map made for this instance", "the registry stored into the transport "+bad+": every instance built this way shares one registry (a service registered on one server is reported, and refused as a duplicate, on all of them)")
+				})
+			}
+		}
+		if nOwn < 2 {
+			c.Fail("transports:registry-stores", token.NoPos, "ANCHOR-MISSING: expected the HTTP server and the in-process channel to create their registry, found %d store(s)", nOwn)
+		}
 		// a refused registration (the registry panics) leaves the transport usable: no mutex is held across a call
 		// that can panic unless its release is deferred
 		nLocks := 0
